@@ -106,6 +106,35 @@ def mk(rng, quick):
     return {"meta": meta, "sql": txt, "rows": rows}
 
 
+def star_scen(rng):
+    """had_changed(ign, *): whole rows (no unique id column) over columns a, b with values coming and going"""
+    ign = rng.choice([0, 1, 1])
+    part = rng.choice(["", "k"])
+    call = {"al": "a0", "fn": "had_changed_star", "col": "a", "off": 1, "hasdef": 0, "def": {"k": "null"}, "ign": ign, "start": 0, "reset": 0, "show": 1}
+    over = " OVER (PARTITION BY k)" if part else ""
+    rows = []
+    for i in range(rng.choice([5, 7, 9])):
+        r = {}
+        if part: r["k"] = rng.choice(["p", "q"])
+        for c in ("a", "b"):
+            x = rng.choice([1, 1, 2, None, MISSING])
+            if x != MISSING: r[c] = x
+        rows.append(r)
+    meta = {"fam": "analytic", "wraps": [], "calls": [call], "part": part, "conds": [], "wmode": "plain", "wop": ">", "wlit": 0}
+    return {"meta": meta, "sql": "SELECT had_changed(%s, *)%s AS a0 FROM stream" % ("true" if ign else "false", over), "rows": rows}
+
+
+def nested_part_scen(rng):
+    """PARTITION BY a nested column while the row also carries a top-level column named like its last segment"""
+    fn = rng.choice(["lag", "acc_sum", "acc_count", "latest"])
+    call = {"al": "a0", "fn": fn, "col": "v", "off": 1, "hasdef": 0, "def": {"k": "null"}, "ign": 1, "start": 0, "reset": 0, "show": 1}
+    rows = []
+    for i in range(rng.choice([6, 8, 10])):
+        rows.append({"id": i + 1, "v": rng.choice([1, 2, 3, 5]), "w": 1, "dev": {"kk": rng.choice(["p", "q"])}, "kk": rng.choice(["x", "y", "z"])})
+    meta = {"fam": "analytic", "wraps": [], "calls": [call], "part": "dev.kk", "partpath": ["dev", "kk"], "conds": [], "wmode": "plain", "wop": ">", "wlit": 0}
+    return {"meta": meta, "sql": "SELECT id, %s(v) OVER (PARTITION BY dev.kk) AS a0 FROM stream" % fn, "rows": rows}
+
+
 def run(tier):
     res = vlib.Result("C14", tier)
     rng = random.Random(vlib.seed())
@@ -116,6 +145,12 @@ def run(tier):
         # the synchronous and the asynchronous path must produce identical sequences: run the same scenario through both
         scen.append(sc)
         scen.append(dict(sc, mode="sync"))
+    for i in range(150 if quick else 3000):
+        sc = star_scen(rng)
+        scen.append(sc); scen.append(dict(sc, mode="sync"))
+    for i in range(80 if quick else 1500):
+        sc = nested_part_scen(rng)
+        scen.append(sc); scen.append(dict(sc, mode="sync"))
     seqfam.run_scenarios(res, scen, "TraceAnalytic", tag="analytic")
     res.cov["exhaustive"] = False
     res.cov["distinct_nontrivial"] = len({s["sql"] + json.dumps(s["rows"], sort_keys=True) for s in scen})
